@@ -120,6 +120,12 @@ def run (cfg : Cfg) (P : Prog) : Nat → Task → St → Res
         match run cfg P fuel (.ev e) σ with
         | (.ok v, σ') => (.ok .null, emitEv σ' ⟨tag, some (shown σ' v)⟩)
         | r => r
+      | .emitI tag es =>
+        -- the holes are evaluated left to right while the string is being built; an error in a
+        -- hole abandons the string (nothing is printed)
+        match run cfg P fuel (.evs es []) σ with
+        | (.vals vs, σ') => (.ok .null, emitEv σ' ⟨tag, some (.parts vs)⟩)
+        | r => r
       | .mkList es =>
         match run cfg P fuel (.evs es []) σ with
         | (.vals vs, σ') => let (σ'', r) := alloc σ' vs; (.ok (.list r), σ'')
